@@ -30,29 +30,38 @@ Keep(o, m) == SelectSeq(o, LAMBDA t : t \in m)
 SubOrders == UNION {{Keep(o, m) : m \in (SUBSET TokenSet) \ {{}}} : o \in OrderSet}
 Present(x) == {x.order[i] : i \in 1..Len(x.order)}
 
-VARIABLE g    \* [stm, wtime, btime, winc, binc, order]
+VARIABLE g    \* [stm, wtime, btime, winc, binc, order, mtg, mtgpos]
+\* `movestogo N` (moves to the next time control) is a standard token of a clock line; mtg = 0: absent.  The property lets
+\* the budget depend on it (it is neither the opponent's clock nor the token order) but FitsClock must hold with it too.
+MTG == {1, 2, 25, 40, 1000}
 \* increments RELATIVE to the clock they belong to: just below / at / above it, and around the share of the
 \* clock a per-move allocation typically hands out (an allocation that is sound for small increments can
 \* still reach the whole clock when the increment is a little below it)
 Near(t) == {x \in {t - 1, t + 1, t - 100, t - (t \div 25), t - (t \div 50), t - ((t \div 100) * 3), t \div 2} : x >= 0}
-GridInit == /\ g \in [stm : {"w", "b"}, wtime : Times, btime : Times, winc : Incs, binc : Incs, order : SubOrders]
-                  \cup UNION {[stm : {"w"}, wtime : {t}, btime : {0, 60000}, winc : Near(t), binc : {0, 1000}, order : SubOrders] : t \in Times}
-                  \cup UNION {[stm : {"b"}, btime : {t}, wtime : {0, 60000}, binc : Near(t), winc : {0, 1000}, order : SubOrders] : t \in Times}
+FullOrders == {o \in OrderSet : Len(o) = 4}
+Pos2 == {"front", "back"}
+GridInit == /\ g \in [stm : {"w", "b"}, wtime : Times, btime : Times, winc : Incs, binc : Incs, order : SubOrders, mtg : {0}, mtgpos : {"back"}]
+                  \cup UNION {[stm : {"w"}, wtime : {t}, btime : {0, 60000}, winc : Near(t), binc : {0, 1000}, order : SubOrders, mtg : {0}, mtgpos : {"back"}] : t \in Times}
+                  \cup UNION {[stm : {"b"}, btime : {t}, wtime : {0, 60000}, binc : Near(t), winc : {0, 1000}, order : SubOrders, mtg : {0}, mtgpos : {"back"}] : t \in Times}
+                  \cup UNION {[stm : {"w"}, wtime : {t}, btime : {0, 60000}, winc : Near(t) \cup {0, 1000}, binc : {0, 1000}, order : FullOrders, mtg : MTG, mtgpos : Pos2] : t \in Times}
+                  \cup UNION {[stm : {"b"}, btime : {t}, wtime : {0, 60000}, binc : Near(t) \cup {0, 1000}, winc : {0, 1000}, order : FullOrders, mtg : MTG, mtgpos : Pos2] : t \in Times}
             /\ \A t \in TokenSet \ Present(g) : ValOf(g, t) = 0
 \* random go commands: clocks from a few magnitudes, increments anywhere between 0 and twice the clock
 \* (a parameter that depends on the state keeps TLC from evaluating the draw once and caching it as a constant)
 RandTime(dummy) == LET m == RandomElement({10, 1000, 6000, 100000, 10000000}) IN RandomElement(0..m)
 RandInc(t) == IF RandomElement({TRUE, FALSE}) THEN RandomElement(0..(2 * t + 10)) ELSE RandomElement(0..5000)
 RandGo(wt, bt) == [stm |-> RandomElement({"w", "b"}), wtime |-> wt, btime |-> bt, winc |-> RandInc(wt), binc |-> RandInc(bt),
-                   order |-> RandomElement(OrderSet)]
+                   order |-> RandomElement(OrderSet), mtg |-> RandomElement({0, 0, 1, 3, 17, 30, 40, 60, 200}),
+                   mtgpos |-> RandomElement({"front", "back"})]
 Init == IF Random THEN g = RandGo(RandTime(0), RandTime(1)) ELSE GridInit
 
 RECURSIVE ClockText(_, _)
 ClockText(x, ord) == IF ord = <<>> THEN "" ELSE " " \o Head(ord) \o " " \o ToString(ValOf(x, Head(ord))) \o ClockText(x, Tail(ord))
-GoText(x) == "go" \o ClockText(x, x.order)
+MtgText(x) == IF x.mtg = 0 THEN "" ELSE " movestogo " \o ToString(x.mtg)
+GoText(x) == IF x.mtgpos = "front" THEN "go" \o MtgText(x) \o ClockText(x, x.order) ELSE "go" \o ClockText(x, x.order) \o MtgText(x)
 
 Next == IF Random THEN /\ (EmitOn => PrintT(<<"@@", ToJson([k |-> "go", text |-> GoText(g), stm |-> g.stm,
-                                            go |-> [wtime |-> g.wtime, btime |-> g.btime, winc |-> g.winc, binc |-> g.binc]])>>))
+                                            go |-> [wtime |-> g.wtime, btime |-> g.btime, winc |-> g.winc, binc |-> g.binc, mtg |-> g.mtg]])>>))
                            /\ g' = RandGo(RandTime(g), RandTime(g.order))
         ELSE UNCHANGED g
 Spec == Init /\ [][Next]_g
@@ -71,13 +80,13 @@ ModelBudget(own, inc) == Min2((Max2(own - Reserve, 0) \div 25) + inc, own \div 2
 (* ---------------- the relation (C12) ---------------- *)
 \* the budget never exceeds the mover's remaining time and is strictly below it whenever any remains
 FitsClock(own, budget) == budget >= 0 /\ budget <= own /\ (own > 0 => budget < own)
-\* the budget is a function of (side to move, own remaining time, own increment) only: the opponent's
+\* the budget is a function of (side to move, own remaining time, own increment, moves to go) only: the opponent's
 \* clock and the token order have no influence.  Stated over a set of observations:
 OwnClockOnly(obs) == \A a \in obs, b \in obs :
-                       (a.stm = b.stm /\ a.own = b.own /\ a.inc = b.inc) => a.budget = b.budget
+                       (a.stm = b.stm /\ a.own = b.own /\ a.inc = b.inc /\ a.mtg = b.mtg) => a.budget = b.budget
 
 ModelFits == ModelBudget(OwnTime(g), OwnInc(g)) >= 0 /\ ModelBudget(OwnTime(g), OwnInc(g)) <= OwnTime(g)
              /\ (OwnTime(g) > 0 => ModelBudget(OwnTime(g), OwnInc(g)) < OwnTime(g))
 EmitInv == (EmitOn /\ ~Random) => PrintT(<<"@@", ToJson([k |-> "go", text |-> GoText(g), stm |-> g.stm,
-                                            go |-> [wtime |-> g.wtime, btime |-> g.btime, winc |-> g.winc, binc |-> g.binc]])>>)
+                                            go |-> [wtime |-> g.wtime, btime |-> g.btime, winc |-> g.winc, binc |-> g.binc, mtg |-> g.mtg]])>>)
 =============================================================================
